@@ -70,17 +70,10 @@ class SimCheck:
             res.merge(self.extra(ctx))
         return conclude(ctx, res, self.rule, self.assume, t0)
 
-    def replay(self, ctx: RunContext, body: dict) -> int:
-        tr = body["trace"]
-        try:
-            if tr.get("kind") and self.replay_extra:
-                self.replay_extra(tr)
-            else:
-                mgen.replay_history(tr, self.prop)
-        except Violation as v:
-            print(f"VIOLATION property={self.prop} replay={ctx.replay}\n  key={v.key}\n  what={v.what}")
-            return 1
-        print("replay: property held")
-        return 0
+    def replay_trace(self, tr: dict):
+        if tr.get("kind") and self.replay_extra:
+            self.replay_extra(tr)
+        else:
+            mgen.replay_history(tr, self.prop)
 
     replay_extra = None
